@@ -172,6 +172,8 @@ type mstate struct {
 	// The model is commutative in the fused amounts, so of the orders in which a multiset of such amounts can be
 	// spent only the non-decreasing one is continued (the others lead to the same model state).
 	LastRel uint64
+	// LastClass is the class (send/recv/call) of the latest block; representatives prefer to alternate classes.
+	LastClass string
 }
 
 func (s *mstate) used() uint64 {
@@ -494,10 +496,27 @@ func (x *explorer) judge(e *env, st *mstate, path []step, cd cand, b *nom.Accoun
 	okAvail := cd.F <= avail
 	okCap := total.Cmp(big.NewInt(refBlockCap)) <= 0
 	modelOK = powOK && okBase && okAvail && okCap
+	// vacuity counters on the model side (properties of the enumerated space, whatever the code answers)
+	if modelOK {
+		x.r.Count("model_allows", 1)
+	}
+	if !powOK {
+		x.r.Count("model_refuses:pow-not-proven", 1)
+	}
+	if !okBase {
+		x.r.Count("model_refuses:below-base-cost", 1)
+	}
+	if !okAvail {
+		x.r.Count("model_refuses:fused-exceeds-available", 1)
+	}
+	if !okCap {
+		x.r.Count("model_refuses:above-per-block-cap", 1)
+	}
 	if !accepted {
 		return
 	}
 	if !powOK {
+		x.r.Count("acct_accepted_with_unproven_pow", 1)
 		key := "C12:acct:accepted-with-unproven-pow:difficulty<2^63"
 		if d >= 1<<63 {
 			key = keyPow63 // same root cause as the threshold computation found in part (a)
@@ -592,6 +611,7 @@ func (x *explorer) evalOne(e *env, st *mstate, path []step, cd cand, nn *stateNo
 	child.Unconf = append(child.Unconf, cd.F)
 	child.Prev = tx.Block.Identifier()
 	child.Blocks++
+	child.LastClass = kinds[cd.K].Class
 	if kinds[cd.K].Class == "recv" {
 		child.RecvUsed++
 	}
@@ -646,7 +666,7 @@ func (x *explorer) evaluate(e *env, st *mstate, path []step, depthLeft int, pset
 		}
 		cands = ext
 	}
-	repSeen := map[string]bool{}
+	repIdx := map[string]int{}
 	nAcc, nRej := 0, 0
 	for _, cd := range cands {
 		child, ok := x.evalOne(e, st, path, cd, nn, full)
@@ -669,9 +689,13 @@ func (x *explorer) evaluate(e *env, st *mstate, path []step, depthLeft int, pset
 			child.LastRel = 0
 		}
 		k := stateKey(child, depthLeft-1)
-		if !repSeen[k] {
-			repSeen[k] = true
+		if i, ok := repIdx[k]; !ok {
+			repIdx[k] = len(reps)
 			reps = append(reps, rep{cd, child})
+		} else if old := reps[i].cd; kinds[old.K].Class == st.LastClass && kinds[cd.K].Class != st.LastClass && old.F == cd.F && old.P == cd.P {
+			// same model successor through a block of another class than the previous block's: prefer it, so that the
+			// explored histories mix sends, receives and contract calls
+			reps[i] = rep{cd, child}
 		}
 	}
 	r.Count("acct_states_expanded", 1)
@@ -685,7 +709,7 @@ func (x *explorer) evaluate(e *env, st *mstate, path []step, depthLeft int, pset
 	if nAcc > 0 && nRej > 0 {
 		r.Add("nontrivial", "acct:"+skey)
 	}
-	if len(path) <= 1 {
+	if (len(path) == 0 && x.cfg.QSR == 5000) || len(path) >= 2 {
 		r.Sample(map[string]interface{}{"part": "acct", "cfg": x.cfg, "history": pathString(path), "candidates": len(cands), "accepted": nAcc, "rejected": nRej,
 			"some_candidates": fmt.Sprint(cands[:min(3, len(cands))])})
 	}
